@@ -1175,7 +1175,7 @@ func callBuiltin(caller *frame, callpos token.Pos, fn *ssa.Builtin, args []value
 		return &caller.defers
 	}
 
-	panic("unknown built-in: " + fn.Name())
+	panic(unsupported("built-in " + fn.Name() + " is not modelled"))
 }
 
 // builtinElemType returns the element type of the first (slice) parameter of append/copy.
